@@ -46,6 +46,7 @@ THEOREMS = [
     "undefined_types_absent",
     "types_of_observ_roundtrip", "time_of_first_obs_roundtrip", "epoch_roundtrip_v2", "sat_list_continuation_v2",
     "obs_line_classified_v2", "obs_record_roundtrip_v2",
+    "rinex2_file_roundtrip", "rinex2_file_rows", "decimation_file_spec_v2",
 ]
 
 REQ = "From Verif Require Import Lib.Dyadic Model.C11_Rinex Model.C11_Check."
@@ -207,6 +208,28 @@ def only_grid_epochs_dropped(ctx, f, obs):
     return vs == [[0]]
 
 
+def spec_rendered_files(ctx):
+    """The example files of Props/C11.v rendered by the FORMAL renderers (Spec/C11_RinexFile.v: render_file2 / render_file3), so
+    that the text the whole-file theorems are about also goes through midgard (cross-check of the format specification)."""
+    import re
+    out = []
+    req = REQ + "\nFrom Verif Require Import Spec.C11_RinexFile Props.C11."
+    for name, version, term, rates, rows, maxsat, systypes in (
+            ("spec_render_file2", 2, "render_file2 ex_file2", [None, [30, 1]], {None: 14, 30: 13}, 13, [["", ["C1"] * 7]]),
+            ("spec_render_file3", 3, "render_file3 ex_file3", [None, [30, 1]], {None: 3, 30: 2}, 2, [["E", ["C1X"] * 14]])):
+        txt = ctx.coq_eval(req, term)
+        m = re.search(r"=\s*\[(.*)\]\s*:\s*list string", txt, re.S)
+        if not m:
+            ctx.notes.append(f"{name}: could not read the rendered lines: {txt[-300:]}")
+            continue
+        lines = [x.replace('""', '"') for x in re.findall(r'"((?:[^"]|"")*)"(?:%string)?', m.group(1))]
+        for rate in rates:
+            out.append((f"{name}_rate_{rate[0] if rate else 'none'}",
+                        dict(version=version, sampling=rate, lines=lines, rows=rows[rate[0] if rate else None], maxsat=maxsat,
+                             systypes=systypes, epochs=[], near_grid=False)))
+    return out
+
+
 def corpus():
     """Hand-written files first (classes that failed earlier)."""
     def cell(v):
@@ -261,6 +284,8 @@ def run(ctx):
     rng = ctx.rng
     n_small, n_big = (70, 10) if ctx.quick() else (1400, 200)
     files = [(name, f) for name, f in corpus()]
+    if ok:
+        files += spec_rendered_files(ctx)
     for i in range(n_small + n_big):
         version = 2 if i % 2 == 0 else 3
         size = "big" if i >= n_small else "small"
@@ -272,15 +297,15 @@ def run(ctx):
     cases, metas, models, obs_terms = [], [], {}, {}
     os.makedirs(ctx.work, exist_ok=True)
     for name, f in files:
-        lines = gen.render(f)
+        lines = f["lines"] if "lines" in f else gen.render(f)
         path = os.path.join(ctx.work, f"{name}.rnx")
         with open(path, "w", newline="") as fh:
             fh.write("".join(l + "\n" for l in lines))
         p, err = parse_with_midgard(f["version"], path, f["sampling"])
-        nrows = sum(len(e["sats"]) for e in f["epochs"] if epoch_on_grid(e, f["sampling"]))
+        nrows = f["rows"] if "lines" in f else sum(len(e["sats"]) for e in f["epochs"] if epoch_on_grid(e, f["sampling"]))
         models[name] = f
         rep = dict(kind="file", name=name, version=f["version"], sampling=f["sampling"], lines=lines,
-                   expected_rows=nrows, blank_observation_line=has_blank_obs_line(f),
+                   expected_rows=nrows, blank_observation_line=("" in f["lines"]) if "lines" in f else has_blank_obs_line(f),
                    how=f"parsers.parse_file('rinex{f['version']}_obs', <file with these lines>" +
                        (f", sampling_rate={f['sampling'][0]}/{f['sampling'][1]})" if f["sampling"] else ")") + ".as_dict() / .meta")
         if p is None:
@@ -299,7 +324,7 @@ def run(ctx):
         cases.append(case_term(f["version"], f["sampling"], lines, obs_t))
         metas.append(rep)
         ntypes = max(len(t) for _, t in f["systypes"])
-        nsat = max(len(e["sats"]) for e in f["epochs"])
+        nsat = f["maxsat"] if "lines" in f else max(len(e["sats"]) for e in f["epochs"])
         ctx.count(f"v{f['version']}:types<= {5 * ((ntypes + 4) // 5)}")
         ctx.count(f"v{f['version']}:maxsats<= {12 * ((nsat + 11) // 12)}")
         ctx.count("sampling:" + ("none" if not f["sampling"] else "set"))
